@@ -31,4 +31,8 @@ theorem idalloc_good : Facts.idAllocMux.Good := by decide
 theorem holds_ids_distinct (es : List IdAlloc.Ev) (s : IdAlloc.State) (hr : IdAlloc.runFrom Facts.idAllocMux IdAlloc.init es = some s) :
     s.issued.Nodup := (Props.IdAlloc.ids_distinct _ idalloc_good es s hr).1
 
+theorem holds_accept_bookkeeping (nothingParked : Bool) (n m : Nat) :
+    timeoutReleasesLock Facts.muxAccept nothingParked = true ∧ acceptSlotAfterDial Facts.muxAccept n m = true :=
+  accept_bookkeeping _ (by decide) nothingParked n m
+
 end GoPlugin.Instance.C06
